@@ -95,7 +95,19 @@ func checkContainment(c ugen.Case) error {
 	}
 	ev.LabelIf(uerr == nil, "unpack-ok")
 	ev.LabelIf(uerr != nil, "unpack-error")
-	if d := fsx.Diff(before, after, fsx.AllFields); len(d) > 0 {
+	d := fsx.Diff(before, after, fsx.AllFields)
+	if c.Spelling == "absent" {
+		// creating the destination is an entry made in its parent directory: that directory's own times change
+		var keep []string
+		for _, x := range d {
+			if strings.HasPrefix(x, "l1/l2/l3: mtime") || strings.HasPrefix(x, "l1/l2/l3: ctime") {
+				continue
+			}
+			keep = append(keep, x)
+		}
+		d = keep
+	}
+	if len(d) > 0 {
 		if len(d) > 6 {
 			d = d[:6]
 		}
